@@ -15,8 +15,13 @@ SRC = "/repo/src/conductor"
 
 
 class AbortInjector:
-    def __init__(self, k=None, exc_factory=None, start_after="register_signal_handlers"):
+    def __init__(self, k=None, exc_factory=None, start_after="register_signal_handlers", target=None):
+        """k: fire at the k-th armed line event.  target=(file, line, nth): fire at the nth time that line is reached
+        (robust against per-process differences in event numbering; used by replays)."""
         self.k = k
+        self.target = tuple(target) if target is not None else None
+        self.per_line = {}
+        self.nth = None
         self.count = 0
         self.armed = start_after is None
         self.start_after = start_after
@@ -48,7 +53,12 @@ class AbortInjector:
             return self._local
         n = self.count
         self.count += 1
-        if self.k is not None and n == self.k and self.fired_at is None:
+        key = (frame.f_code.co_filename[len(SRC) + 1:], frame.f_lineno)
+        occ = self.per_line.get(key, 0)
+        self.per_line[key] = occ + 1
+        hit = (self.k is not None and n == self.k) or (self.target is not None and key == self.target[:2] and occ == self.target[2])
+        if hit and self.fired_at is None:
+            self.nth = occ
             f = frame
             while f is not None:
                 if f.f_code.co_name == "__del__":
